@@ -137,6 +137,7 @@ class Exec:
         proc.add_state_event_callback(StateEventHook.ENTERED_STATE, self._entered)
         if self.attach_listener:
             self.listener = programs.ProgListener()
+            self.world.extra['main_listener'] = self.listener
             proc.add_process_listener(self.listener)
             if self.case.get('listener_twice'):
                 proc.add_process_listener(self.listener)  # registration is idempotent
@@ -424,7 +425,8 @@ class Exec:
         arg = ev[1] if len(ev) > 1 else (NOVALUE if kind == 'resume' else None)
         if kind == 'resume' and isinstance(arg, (dict, list)):
             arg = programs.dec(arg)
-        with self.loop.as_running():
+        # (own-loop mode: the request comes from synchronous code while no loop is running)
+        with contextlib.nullcontext() if self.decoy is not None else self.loop.as_running():
             rec = control(self.proc, kind, arg, who=who)
         rec['phase'] = phase
         rec['epoch'] = epoch
